@@ -32,7 +32,7 @@ def string_tables(prog, units=None):
     return out
 
 
-def format_literals(prog, funcs, print_funcs=PRINT_FUNCS):
+def format_literals(prog, funcs, print_funcs=PRINT_FUNCS, with_args=True, args_only=False):
     """(literal, loc, function, call node) for every literal format/text argument of a print call in funcs"""
     out = []
     for f in funcs:
@@ -40,7 +40,7 @@ def format_literals(prog, funcs, print_funcs=PRINT_FUNCS):
             n = callee(c)
             if n in print_funcs:
                 k = print_funcs[n]
-                if k < len(c[3]):
+                if k < len(c[3]) and not args_only:
                     a = strip(c[3][k])
                     if isinstance(a, list) and a and a[0] == "s":
                         out.append((a[1], c[4], f, c))
@@ -48,11 +48,17 @@ def format_literals(prog, funcs, print_funcs=PRINT_FUNCS):
                         for alt in (strip(a[2]), strip(a[3])):
                             if isinstance(alt, list) and alt and alt[0] == "s":
                                 out.append((alt[1], c[4], f, c))
+                if not with_args:
+                    continue
                 # literal %s arguments ("%s", "RANGES")
                 for a in c[3][k + 1:] if k < len(c[3]) else []:
                     a = strip(a)
                     if isinstance(a, list) and a and a[0] == "s":
                         out.append((a[1], c[4], f, c))
+                    elif isinstance(a, list) and a and a[0] == "q":
+                        for alt in (strip(a[2]), strip(a[3])):
+                            if isinstance(alt, list) and alt and alt[0] == "s":
+                                out.append((alt[1], c[4], f, c))
     return out
 
 
@@ -143,121 +149,77 @@ def run_basis(prog, rule="R-TOKENS"):
 
 
 def run_sections(prog, writer, terminators, print_funcs=PRINT_FUNCS, rule="R-SECTIONS", token_ok=None):
-    """In a sectioned-file writer the terminator keyword (ENDATA / End) is emitted only after every section emitter has been
-    passed: for each emission of a section token that sits in a loop, the loop's condition block must lie on every path to
-    each emission of a terminator.  (A writer that returns early with the terminator drops the remaining sections.)"""
-    from ..core import Flow
-    res = RuleResult(rule, "the terminator keyword of %s is emitted only after the loop of every section emitter has been passed" % writer)
+    """In a sectioned-file writer the terminator keyword (ENDATA / End) closes the file: (a) every emission of the terminator
+    is dominated by the entry of every section (the lowest block dominating both the section's emitter and the final
+    terminator emission), so no early exit can write the terminator while skipping sections; (b) no section emitter is
+    reachable after a terminator emission.  Section emitters are the loops (or, failing that, the blocks) containing the
+    section-token prints, and calls to same-unit functions that print through the writer's channel."""
+    from ..core import dominators
+    res = RuleResult(rule, "every emission of the terminator keyword of %s is dominated by the entry of every section and is followed by no section" % writer)
     f = prog.require_fn(writer)
-    succ = {bid: [x for x in prog.live_succs(f, b) if x is not None] for bid, b in f.blocks.items()}
-
-    def loop_header_of(bid):
-        """innermost loop condition block whose body contains bid"""
-        best = None
-        for hb, hblk in f.blocks.items():
-            if hblk.get("t") not in ("ForStmt", "WhileStmt", "DoStmt") or hb not in f.live:
-                continue
-            ss = prog.live_succs(f, hblk)
-            if not ss or ss[0] is None:
-                continue
-            body = set()
-            st = [ss[0]]
-            while st:
-                x = st.pop()
-                if x in body or x == hb:
-                    continue
-                body.add(x)
-                st.extend(succ.get(x, ()))
-            # body of the loop = blocks reachable from the true edge from which the header is reachable again
-            if bid in body and hb in _reach(succ, bid):
-                if best is None or len(body) < best[1]:
-                    best = (hb, len(body))
-        return best[0] if best else None
+    dom, succ = dominators(prog, f)
+    printers = set()
+    for g in prog.funcs.values():
+        if g.unit == f.unit and g.key != f.key and any(callee(c) in print_funcs or callee(c) in ("mpq_ILLwrite_lp_state_append",) for b, i, c in g.calls()):
+            printers.add(g.name)
     term_sites = {}
-    sect = {}
+    sect_blocks = {}
     for b, i, e in f.elements():
-        if e[0] != "C" or callee(e[1]) not in print_funcs:
+        if e[0] != "C":
             continue
-        k = print_funcs[callee(e[1])]
-        lits = []
+        cn = callee(e[1])
+        if cn in printers:
+            sect_blocks.setdefault(b["id"], set()).add(cn + "()")
+            continue
+        if cn not in print_funcs:
+            continue
+        k = print_funcs[cn]
         for a in e[1][3][k:]:
             a = strip(a)
-            if isinstance(a, list) and a and a[0] == "s":
-                lits.append(a[1])
-        for lit in lits:
-            tok = first_word(lit)
+            if not (isinstance(a, list) and a and a[0] == "s"):
+                continue
+            tok = first_word(a[1])
             if not tok:
                 continue
             if tok in terminators:
                 term_sites[(b["id"], i)] = (tok, e[2])
             elif token_ok is None or token_ok(tok):
-                hb = loop_header_of(b["id"])
-                if hb is not None:
-                    sect.setdefault(hb, set()).add(tok)
-    res.counts["section_loops"] = {str(h): sorted(v) for h, v in sect.items()}
-    res.counts["terminator_sites"] = len(term_sites)
+                sect_blocks.setdefault(b["id"], set()).add(tok)
     if not term_sites:
         raise AnalysisBroken("%s: no emission of a terminator keyword %s found" % (writer, sorted(terminators)))
-    headers = set(sect)
-    seen = {}
-
-    def xfer(b, i, e, st):
-        k = (b["id"], i)
-        if k in term_sites:
-            missing = headers - set(st[0])
-            if missing:
-                seen.setdefault(k, (missing, b["id"], st))
-        return None
-
-    def refine(cond, truth, st):
-        return None
-    # passing a header = visiting its block: record on block entry via xfer of its first element is not possible for
-    # empty blocks, so track through a wrapper on edges: we mark in xfer when the block id is a header (any element) and
-    # additionally in the edge step below
-    class F2(Flow):
-        pass
-    fl = Flow(prog, f, [(frozenset(),)], xfer, None)
-    # custom run: mark headers on block entry
-    orig_blocks = f.blocks
-    import collections as _c
-    IN = _c.defaultdict(set)
-    wl = _c.deque()
-    IN[f.entry].add((frozenset(),))
-    wl.append((f.entry, (frozenset(),)))
-    prov = {}
-    visits = 0
-    while wl:
-        bid, st = wl.popleft()
-        visits += 1
-        if visits > 500000:
-            raise AnalysisBroken("R-SECTIONS did not converge in %s" % writer)
-        b = f.blocks[bid]
-        cur = st
-        if bid in headers:
-            cur = (frozenset(set(cur[0]) | {bid}),)
-        for i, e in enumerate(b["e"]):
-            xfer(b, i, e, cur)
-        if b.get("noret"):
+    last = max(term_sites, key=lambda k_: term_sites[k_][1].split(":")[1:2] and int(term_sites[k_][1].split(":")[1]))
+    lastb = last[0]
+    res.counts["sections"] = sorted(set().union(*sect_blocks.values())) if sect_blocks else []
+    res.counts["terminator_sites"] = len(term_sites)
+    entries = {}
+    for sb, toks in sect_blocks.items():
+        if sb not in dom or lastb not in dom:
             continue
-        for s in prog.live_succs(f, b):
-            if s is None:
-                continue
-            if cur not in IN[s]:
-                IN[s].add(cur)
-                wl.append((s, cur))
-    for k, (tok, loc) in sorted(term_sites.items()):
+        common = dom[sb] & dom[lastb]
+        # lowest common dominator = the one dominated by all others in the set
+        low = max(common, key=lambda x: len(dom[x]))
+        entries.setdefault(low, set()).update(toks)
+    for (tb, ti), (tok, loc) in sorted(term_sites.items()):
         res.obligations += 1
         res.nontrivial += 1
-        if k in seen:
-            missing = seen[k][0]
-            names = sorted(set().union(*[sect[h] for h in missing]))
-            res.violations.append(Violation(rule, "%s|%s emitted before sections %s" % (writer, tok, ",".join(names)), writer, short_loc(loc),
-                                            "%s can be written on a path that has not passed the emitter loop of section token(s) %s: those lines are dropped from the file"
-                                            % (tok, ", ".join(names))))
+        bad = []
+        for ent, toks in entries.items():
+            if ent not in dom.get(tb, ()):
+                bad.append(("skips", toks))
+        after = _reach(succ, tb)
+        for sb, toks in sect_blocks.items():
+            if sb in after and sb != tb:
+                bad.append(("precedes", toks))
+        if bad:
+            kinds = sorted(set(k_ for k_, _ in bad))
+            names = sorted(set().union(*[t for _, t in bad]))
+            res.violations.append(Violation(rule, "%s|%s %s sections %s" % (writer, tok, "/".join(kinds), ",".join(names)), writer, short_loc(loc),
+                                            "%s is written at a point that %s the section emitter(s) %s: those lines are dropped from (or follow the end of) the file"
+                                            % (tok, " / ".join(kinds), ", ".join(names))))
         else:
-            res.sample({"terminator": tok, "at": short_loc(loc), "verdict": "every section emitter loop precedes it on all paths",
-                        "sections": sorted(set().union(*sect.values())) if sect else []})
-    res.floor("section emitter loops in %s" % writer, len(headers), 1)
+            res.sample({"terminator": tok, "at": short_loc(loc), "verdict": "dominated by the entry of every section; no section emitter after it",
+                        "sections": res.counts["sections"]})
+    res.floor("section emitters in %s" % writer, len(sect_blocks), 2)
     return res
 
 
@@ -271,3 +233,124 @@ def _reach(succ, start):
         seen.add(x)
         st.extend(succ.get(x, ()))
     return seen
+
+
+def _assigned_literals(funcs):
+    out = set()
+    for f in funcs:
+        for b, i, e in f.elements():
+            if e[0] == "A":
+                r = strip(e[1][3])
+                if isinstance(r, list) and r and r[0] == "s":
+                    out.add(r[1])
+            elif e[0] == "D":
+                for n, init in e[1]:
+                    if init is not None:
+                        for nd in walk(init):
+                            if nd[0] == "s":
+                                out.add(nd[1])
+            elif e[0] == "C":
+                n = callee(e[1]) or ""
+                if "next_is" in n or "strcasecmp" in n or "strcmp" in n:
+                    for a in e[1][3]:
+                        a = strip(a)
+                        if isinstance(a, list) and a and a[0] == "s":
+                            out.add(a[1])
+        for bid in f.live:
+            bl = f.blocks[bid]
+            if "c" in bl:
+                for nd in walk(bl["c"]):
+                    if nd[0] == "c" and ("next_is" in (callee(nd) or "") or "strcasecmp" in (callee(nd) or "") or "strcmp" in (callee(nd) or "")):
+                        for a in nd[3]:
+                            a = strip(a)
+                            if isinstance(a, list) and a and a[0] == "s":
+                                out.add(a[1])
+    return out
+
+
+def run_mps(prog, rule="R-TOKENS"):
+    res = RuleResult(rule, "every section keyword, row-type letter, bound-type mnemonic and marker the MPS writer emits is accepted by the MPS reader")
+    wfuncs = [prog.require_fn("mpq_ILLwrite_mps")] + [f for f in prog.funcs.values() if f.name == "mps_write_col" and "mps_mpq" in f.unit]
+    rfuncs = closure_funcs(prog, ["mpq_ILLread_mps"])
+    rfuncs = [f for f in rfuncs if "mps" in f.unit or "rawlp" in f.unit]
+    tables = string_tables(prog)
+    acc, chars, used = accepted_literals(prog, rfuncs, tables)
+    acc |= _assigned_literals(rfuncs)
+    sections = set(v for v in tables.get("mpq_ILLmps_section_name", []) if v)
+    bounds = set(v for v in tables.get("mps_bound_name", []) if v)
+    if not sections or not bounds:
+        raise AnalysisBroken("MPS reader tables (section names / bound names) not found")
+    em_sec, em_row, em_bnd, em_mark = [], [], [], []
+    for lit, loc, f, c in format_literals(prog, wfuncs, {"mpq_ILLprint_report": 1}, args_only=True):
+        if re.fullmatch(r"[A-Z][A-Z0-9]+", lit or ""):       # literal passed as %s argument: INTORG / MAX / MIN / S1 ...
+            em_mark.append((lit, loc, f.name))
+    for lit, loc, f, c in format_literals(prog, wfuncs, {"mpq_ILLprint_report": 1}, with_args=False):
+        if not lit:
+            continue
+        for q in re.findall(r"'([A-Z]+)'", lit):
+            em_mark.append(("'%s'" % q, loc, f.name))
+        if lit[0].isupper():
+            em_sec.append((first_word(lit), loc, f.name))
+        elif lit[0] == " ":
+            ws = lit.split()
+            if ws and re.match(r"^[A-Z]$", ws[0]):
+                em_row.append((ws[0], loc, f.name))
+            elif len(ws) >= 2 and re.match(r"^[A-Z]{2}$", ws[0]) and ws[1] == "BOUND":
+                em_bnd.append((ws[0], loc, f.name))
+    check_subset(res, rule, "MPS section", em_sec, sections)
+    check_subset(res, rule, "MPS row type", em_row, chars)
+    check_subset(res, rule, "MPS bound type", em_bnd, bounds)
+    quoted = {a for a in acc if a.startswith("'")} | {a.strip("'") for a in acc if a.startswith("'")} | {a for a in acc if a.isupper()}
+    check_subset(res, rule, "MPS marker/objsense", em_mark, quoted)
+    res.counts["sections_written"] = sorted({t for t, _, _ in em_sec})
+    res.counts["row_types_written"] = sorted({t for t, _, _ in em_row})
+    res.counts["bound_types_written"] = sorted({t for t, _, _ in em_bnd})
+    res.counts["markers_written"] = sorted({t for t, _, _ in em_mark})
+    res.floor("MPS sections written", len(set(t for t, _, _ in em_sec)), 8)
+    res.floor("MPS bound types written", len(set(t for t, _, _ in em_bnd)), 6)
+    res.floor("MPS row types written", len(set(t for t, _, _ in em_row)), 4)
+    return res
+
+
+def run_lp(prog, rule="R-TOKENS"):
+    res = RuleResult(rule, "every keyword the LP writer emits (section headers, free, inf, -inf) is accepted by the LP reader (case-insensitively)")
+    wfuncs = [f for f in closure_funcs(prog, ["mpq_ILLwrite_lp"]) if "lp_mpq" in f.unit]
+    rfuncs = [f for f in closure_funcs(prog, ["mpq_ILLread_lp"]) if "lp_mpq" in f.unit]
+    tables = string_tables(prog)
+    acc, chars, used = accepted_literals(prog, rfuncs, tables)
+    acc |= _assigned_literals(rfuncs)
+    kw = set(v for v in tables.get("all_keyword", []) if v)
+    if not kw:
+        raise AnalysisBroken("LP reader keyword table all_keyword not found")
+    acc |= kw
+    em = []
+    for lit, loc, f, c in format_literals(prog, wfuncs, {"mpq_ILLprint_report": 1, "mpq_ILLwrite_lp_state_append": 1, "mpq_ILLwrite_lp_state_init": 1}):
+        n = callee(c)
+        if n == "mpq_ILLprint_report":
+            if lit and lit[0].isalpha():
+                em.append((first_word(lit), loc, f.name))
+        else:
+            t = lit.strip()
+            if re.match(r"^-?[a-z]{3,}$", t):
+                em.append((t.lstrip("-"), loc, f.name))
+    check_subset(res, rule, "LP keyword", em, acc, ci=True)
+    res.counts["keywords_written"] = sorted({t for t, _, _ in em})
+    res.floor("LP keywords written", len(set(t for t, _, _ in em)), 8)
+    # sense tokens
+    senses = []
+    for lit, loc, f, c in format_literals(prog, wfuncs, {"mpq_ILLwrite_lp_state_append": 1}):
+        t = lit.strip()
+        if t in (">=", "<=", "=", "=>", "=<", ">", "<"):
+            senses.append((t, loc, f.name))
+    sfun = prog.fn("mpq_ILLtest_lp_state_sense")
+    if sfun is None:
+        raise AnalysisBroken("LP sense reader (ILLread_lp_state_sense / ILLtest_lp_state_sense) not found")
+    _, schars, _ = accepted_literals(prog, [sfun], tables)
+    for t, loc, fn in senses:
+        res.obligations += 1
+        if all(ch in schars for ch in t):
+            res.sample({"token": t, "verdict": "every character is one the sense reader tests for"}, limit=3)
+        else:
+            res.violations.append(Violation(rule, "LP sense|writer emits %r" % t, fn, short_loc(loc), "sense token %r contains a character the LP sense reader does not test" % t))
+    res.floor("LP sense tokens written", len(set(t for t, _, _ in senses)), 3)
+    return res
